@@ -120,7 +120,7 @@ SPEC = dict(
           "nested, with '..', repeated separators, names with blank / dot / leading dots, roots ABOVE the tree: '/', parent, "
           "grandparent) + random spellings located by the kernel x every path of <=5 elements over {nm,.,..,'',/nm,a.b,'a b',..x,"
           "rootX,root} (one line = one prefix with all 100 two-element continuations; length 6 for all roots in the thorough tier and "
-          "for two seed-rotated roots in the quick tier), every path of <=3 elements over that alphabet + {$u.. ${u}.. %2e%2e ..%2f ~ "
+          "for one seed-rotated root in the quick tier), every path of <=3 elements over that alphabet + {$u.. ${u}.. %2e%2e ..%2f ~ "
           "..\\ ... '.. ' ' ..' ..NUL} (names that a rewrite after the test would turn into '..'), random longer paths with arbitrary "
           "bytes. (c) I lines = the same through `import \"<path>\" as x` in the interpreter (paths a literal cannot carry go through "
           "an interpolated value); N = with the provider's default locator. (d) T / U lines = the real cli/tool: CLIInterpreter{Dir}."
